@@ -410,6 +410,54 @@ var gatedC06 = []gscen{
 		mp.GC(context.Background(), 1)
 		g.flush()
 	}, func(cfg *gen.Config) { cfg.PrimaryFileSize = 200 }},
+	{"G25-reader-after-unlock-vs-index-gc-marking-its-list-deleted", func(g *gctx) {
+		// three keys of three different buckets: a (the reader's), b (its list follows a's in the file), c (rolls the index on)
+		bk := func(i int) uint32 { return gen.Bucket(g.u.Keys[i].Digest, g.pl.Cfg.Bits) }
+		a, b, c := 0, -1, -1
+		for i := 1; i < len(g.u.Keys); i++ {
+			if b < 0 && bk(i) != bk(a) {
+				b = i
+			} else if b >= 0 && c < 0 && bk(i) != bk(a) && bk(i) != bk(b) {
+				c = i
+			}
+		}
+		if b < 0 || c < 0 {
+			g.res.Add("gated_windows_not_applicable_to_universe", 1) // fewer than three buckets: nothing to script
+			return
+		}
+		g.do(0, g.put(a, 20))
+		g.flush()
+		g.do(0, g.put(b, 20))
+		g.flush() // index file 0: [list of a's bucket][list of b's bucket]
+		if !g.reopen() {
+			return
+		}
+		gt := g.gate("index.get.after-unlock", 1)
+		rd := g.async(1, conc.COp{Kind: "get", K: a})
+		if !gt.WaitArrived(gT) {
+			g.notAttained("reader did not park")
+			gt.Open()
+			return
+		}
+		// supersede the list the reader located and make its file non-current
+		g.do(2, g.put(a, 24))
+		g.flush()
+		for i := 0; i < 30 && g.s.Index().VerifFileNum() < 1; i++ {
+			g.do(2, g.put(c, 30+i))
+			g.flush()
+		}
+		m0 := g.rt.Count("index.gc.reap.before-mark")
+		g.s.Index().VerifGC(context.Background(), false)
+		if g.rt.Count("index.gc.reap.before-mark") > m0 {
+			g.res.Flag("window-attained")
+		} else {
+			g.notAttained("the collector did not mark the superseded list deleted")
+		}
+		gt.Open()
+		waitRec(rd, gT)
+		g.do(3, conc.COp{Kind: "get", K: a})
+		g.do(3, conc.COp{Kind: "get", K: b})
+	}, func(cfg *gen.Config) { cfg.IndexFileSize = 150; cfg.Bits = 12 }},
 	{"G24-index-free-file-scan-parked-vs-flushes-rolling-the-index-files", func(g *gctx) {
 		for i := range g.u.Keys {
 			g.do(0, g.put(i, 20))
